@@ -349,7 +349,7 @@ def r6(db, rep):
             good = None
             for x in facts.fn_nodes(f):
                 if x["k"] == "CXXMemberCallExpr" and x.get("cname") == "resize" and "key_buffer_" in facts.expr_str(x) and len(x["c"]) >= 2:
-                    a = facts.strip_all(x["c"][1])
+                    a = facts.strip_all(facts.inline_locals(f, x["c"][1]))
                     if a["k"] == "CallExpr" and a.get("cname") == "max" and len(a["c"]) == 3:
                         u, w = a["c"][1], a["c"][2]
                         if (kb_size(u) and needed(w, pw)) or (kb_size(w) and needed(u, pw)):
@@ -358,6 +358,8 @@ def r6(db, rep):
                                 good = "resize(max(3 + %s.size(), key_buffer_.size()))" % pw
                     elif needed(a, pw):
                         for op, l, r in cond.guards_facts(g, g.pos(x)):
+                            l = facts.inline_locals(f, l)
+                            r = facts.inline_locals(f, r) if r is not None else None
                             if r is not None and ((op == "<" and kb_size(l) and needed(r, pw)) or (op == ">" and kb_size(r) and needed(l, pw))):
                                 good = "resize(3 + %s.size()) only when the buffer is smaller" % pw
             if good or local:
